@@ -1015,9 +1015,16 @@ class ListBox(Widget, WidgetContainerMixin):
             return None
 
         # restore old focus temporarily
-        self._body.set_focus(focus_pos)
+        try:
+            self._body.set_focus(focus_pos)
+        except (IndexError, KeyError):
+            # the body was edited since set_focus(): the old position is gone, there is nothing to keep in view
+            return None
 
         middle, top, bottom = self.calculate_visible((maxcol, maxrow), focus)
+        if middle is None:
+            # the body was emptied since set_focus()
+            return None
         focus_offset, _focus_widget, focus_pos, focus_rows, _cursor = middle  # pylint: disable=unpacking-non-sequence
         _trim_top, fill_above = top  # pylint: disable=unpacking-non-sequence
         _trim_bottom, fill_below = bottom  # pylint: disable=unpacking-non-sequence
